@@ -59,6 +59,7 @@ type Walker struct {
 	// (its return statements are the closure's, not the function's).
 	FuncLitDepth int
 
+	floor    map[types.Object]int // version numbers already used in dead branches
 	boolDefs map[types.Object]boolDef // boolean locals defined from a condition: b := x == nil || y.Empty()
 
 	cur    uint64 // set of path states at the current program point
@@ -198,9 +199,31 @@ func (w *Walker) PathOfVar(v *types.Var) string {
 	return v.Name()
 }
 
+func (w *Walker) copyVer() map[types.Object]int {
+	m := make(map[types.Object]int, len(w.ver))
+	for k, v := range w.ver {
+		m[k] = v
+	}
+	return m
+}
+
+// mergeVer makes every version at least as large as in any of the given maps.
+func (w *Walker) mergeVer(ms ...map[types.Object]int) {
+	for _, m := range ms {
+		for k, v := range m {
+			if v > w.ver[k] {
+				w.ver[k] = v
+			}
+		}
+	}
+}
+
 func (w *Walker) bump(o types.Object) {
 	if o != nil {
 		w.ver[o]++
+		if fl, ok := w.floor[o]; ok && w.ver[o] <= fl {
+			w.ver[o] = fl + 1
+		}
 	}
 }
 
@@ -804,32 +827,65 @@ func (w *Walker) ifStmt(x *ast.IfStmt, f Formula) Formula {
 	w.expr(x.Cond, f)
 	c := w.Cond(x.Cond)
 	in := w.cur
+	snap := w.copyVer()
 	thenFacts := w.block(x.Body.List, MkAnd(f, c))
 	thenOut := w.cur
 	thenTerm := w.terminates(x.Body.List)
+	thenVer := w.ver
 	elseTerm := false
 	w.cur = in
+	w.ver = w.copyVerOf(snap)
 	var elseFacts Formula = MkAnd(f, MkNot(c))
 	if x.Else != nil {
 		elseFacts = w.stmt(x.Else, MkAnd(f, MkNot(c)))
 		elseTerm = w.stmtTerminates(x.Else)
 	}
+	elseVer := w.ver
 	w.cur |= thenOut
 	switch {
 	case thenTerm && !elseTerm:
-		// only the else arm (or the implicit empty one) falls through: its exit facts hold
+		// only the else arm (or the implicit empty one) falls through: its exit facts and versions hold
+		w.ver = elseVer
+		w.mergeVerNoClash(thenVer, elseVer)
 		return elseFacts
 	case elseTerm && !thenTerm:
+		w.ver = thenVer
+		w.mergeVerNoClash(elseVer, thenVer)
 		return thenFacts
 	case thenTerm && elseTerm:
+		w.ver = elseVer
+		w.mergeVer(thenVer)
 		return False{}
 	}
 	// both arms fall through: variables assigned in either get a fresh version
+	w.ver = elseVer
+	w.mergeVer(thenVer)
 	w.bumpAssignedIn(x.Body)
 	if x.Else != nil {
 		w.bumpAssignedIn(x.Else)
 	}
 	return f
+}
+
+func (w *Walker) copyVerOf(m map[types.Object]int) map[types.Object]int {
+	c := make(map[types.Object]int, len(m))
+	for k, v := range m {
+		c[k] = v
+	}
+	return c
+}
+
+// mergeVerNoClash: the dead arm used version numbers that must not be handed out again later
+// for a different value; remember them as floors without disturbing the live arm's current versions.
+func (w *Walker) mergeVerNoClash(dead, live map[types.Object]int) {
+	if w.floor == nil {
+		w.floor = map[types.Object]int{}
+	}
+	for k, v := range dead {
+		if v > live[k] && v > w.floor[k] {
+			w.floor[k] = v
+		}
+	}
 }
 
 func (w *Walker) switchStmt(x *ast.SwitchStmt, f Formula) Formula {
@@ -847,6 +903,9 @@ func (w *Walker) switchStmt(x *ast.SwitchStmt, f Formula) Formula {
 	var out uint64
 	fr := &loopFrame{isSwitch: true}
 	w.frames = append(w.frames, fr)
+	// every arm starts from the same variable versions
+	snap := w.copyVer()
+	var armVers []map[types.Object]int
 	for _, cc := range x.Body.List {
 		cl := cc.(*ast.CaseClause)
 		if cl.List == nil {
@@ -855,6 +914,7 @@ func (w *Walker) switchStmt(x *ast.SwitchStmt, f Formula) Formula {
 		}
 		var any Formula = False{}
 		w.cur = in
+		w.ver = w.copyVerOf(snap)
 		for _, e := range cl.List {
 			w.expr(e, prev)
 			var c Formula
@@ -866,6 +926,7 @@ func (w *Walker) switchStmt(x *ast.SwitchStmt, f Formula) Formula {
 			any = MkOr(any, c)
 		}
 		w.block(cl.Body, MkAnd(prev, any))
+		armVers = append(armVers, w.ver)
 		out |= w.cur
 		if w.caseTerminates(cl.Body) {
 			exits = MkAnd(exits, MkNot(any))
@@ -878,7 +939,9 @@ func (w *Walker) switchStmt(x *ast.SwitchStmt, f Formula) Formula {
 		cl := cc.(*ast.CaseClause)
 		if cl.List == nil {
 			w.cur = in
+			w.ver = w.copyVerOf(snap)
 			w.block(cl.Body, prev)
+			armVers = append(armVers, w.ver)
 			out |= w.cur
 			if !w.caseTerminates(cl.Body) {
 				allTerm = false
@@ -890,6 +953,8 @@ func (w *Walker) switchStmt(x *ast.SwitchStmt, f Formula) Formula {
 	}
 	w.frames = w.frames[:len(w.frames)-1]
 	w.cur = out | fr.brk
+	w.ver = w.copyVerOf(snap)
+	w.mergeVer(armVers...)
 	w.bumpAssignedIn(x.Body)
 	if hasDefault && allTerm {
 		return False{}
